@@ -189,19 +189,27 @@ class Script:
         |x|, candidates at and just above r, several rejected candidates in a row"""
         import c07
         rng = self.rng
-        # (no all-zero candidate here: the library's Zp* sampler does not redraw 0, and an operation run with exponent 0 - probability
-        # 2^-255 with an honest source - yields degenerate objects, e.g. a ciphertext that carries the message in the clear; the
-        # scheme properties quantify over keys, lists and messages, not over such streams.  C10 covers the sampler itself.)
+        # (no stream here makes the ACCEPTED exponent 0 or -1: the library's Zp* sampler does not redraw 0, and an operation whose
+        # total exponent is 0 - probability 2^-255 with an honest source - yields degenerate objects: a ciphertext that carries the
+        # message in the clear, a signature (g2^alpha, O) that verifies for everything; the scheme properties quantify over keys,
+        # lists and messages, not over such streams.  C07/C10 cover the sampler itself, including those outcomes.)
         t = rng.choice([0, 1, 2, 4])
         if t == 0:
             return c07.make_stream(rng, rng.choice([0, 1, 3]), rng.choice([1, 1, 2, 3]))
         if t == 1:
-            return c07.boundary_stream(rng, rng.choice([0, 0, 1, -1, 5, 1 << 64]))
+            # (delta >= 0 only: the candidate r-1 would be ACCEPTED as exponent -1, which cancels the fixed exponent 1 of every
+            # non-delegable key - the same degenerate class as exponent 0)
+            return c07.boundary_stream(rng, rng.choice([0, 0, 1, 5, 1 << 64]))
         if t == 2:
             return c07.digit_edge_stream(rng, rng.randrange(4), rng.choice([c07.XA - 1, c07.XA, c07.XA + 1, (1 << 64) - 1]))
         return c07.make_stream(rng, rng.choice([1, 5]), 0)
 
     def add(self, line, kind, **kw):
+        pend = getattr(self, 'pending', None)
+        if pend:
+            self.pending = None
+            self.lines.append(pend[0])
+            self.exp.append((pend[1], {}))
         toks = line.split(' ')
         pos = self.SEEDPOS.get(toks[0])
         if pos is not None and len(toks) > pos and toks[pos].isdigit() and self.rng.random() < 0.15:
@@ -223,6 +231,14 @@ class Script:
 
     def setup(self, pid, l, sig):
         self.add('setup %d %d %d %d' % (pid, l, int(sig), self.seed()), 'setup', l=l, sig=sig)
+        if self.rng.random() < 0.4:
+            # parameters and master key as a second process sees them: through marshal + validating unmarshal (normalised representatives)
+            self.add('reparams %d %d' % (pid, self.rng.randrange(2)), 'reobj')
+
+    def maybe_rekey(self, kid, p=0.15):
+        # deferred to just before the next line, so that callers can still annotate exp[-1] of the operation they added
+        if self.rng.random() < p:
+            self.pending = ('rekey %d %d' % (kid, self.rng.randrange(2)), 'reobj')
 
     def keyop(self, op, pid, l, entries, omit_all, parent=None, parent_pattern=None, alloc=None):
         kid = self.newkey()
@@ -235,12 +251,14 @@ class Script:
             pat = qualify_pattern(parent_pattern, entries, omit_all)
             self.add('%s %d %d %d %d %s %d' % (op, kid, pid, parent, go_alloc, al, self.seed()), 'keyop', op=op, pattern=pat, alloc=go_alloc, entries=entries, omit_all=omit_all,
                      parent_pattern=parent_pattern)
+        self.maybe_rekey(kid)
         return kid, pat
 
     def resample(self, pid, src, pattern, further):
         kid = self.newkey()
         self.add('resample %d %d %d %d %s %d' % (kid, pid, src, int(further), alist(fixed_list(pattern)), self.seed()), 'keyop', op='resample', pattern=resample_pattern(pattern, further),
                  alloc=None, entries=None, omit_all=None)
+        self.maybe_rekey(kid)
         return kid, resample_pattern(pattern, further)
 
     def checkkey(self, kid, pid, pattern, how):
@@ -250,6 +268,14 @@ class Script:
         flagged = {i for i, v in entries if v is not None and self.rng.random() < 0.5} if flag_some else ()
         self.add('dec %d %d %s %d %d' % (kid, pid, alist(entries, False, None, flagged), self.seed(), mod), 'dec', expect=expect, mod=mod,
                  why=why + ('/flagged-entries' if flagged else ''), entries=entries)
+
+
+def judge_reobj(sh, line, out):
+    """rekey / reparams lines: the library's own output must be accepted by the validating unmarshal, with the same slot count"""
+    kv = parse_kv(out)
+    if kv.get('ok') != '1':
+        sh.violation('reobj:%s' % line.split()[0], 'marshal + validating unmarshal of a live %s failed: %s -> %s' % ('key' if line.startswith('rekey') else 'parameter set', line, ' '.join(out[1:])), {'line': line})
+    sh.event('object-through-unmarshal', line.split()[0] + ('/compressed' if line.split()[2] == '1' else '/uncompressed'))
 
 
 def parse_kv(tokens):
